@@ -631,4 +631,3 @@ func JSONName(s string) string {
 	}
 	return string(b)
 }
-
